@@ -82,6 +82,8 @@ def _work_rand(args):
                 edges = rng.uniform(0.5, 20, 3)
                 if rng.random() < 0.25:
                     edges = rng.choice([0.5, 0.6, 16.0, 20.0], 3)        # needles and slabs: corners of the edge range
+                if rng.random() < 0.25:
+                    edges = rng.integers(2, 21, 3).astype(float)         # whole numbers of nm: the box may then be an integer array
                 B0 = np.diag(edges)
                 if not ortho:
                     B0[1, 0] = rng.uniform(-0.3, 0.3) * edges[0]
@@ -137,6 +139,11 @@ def _work_rand(args):
                     okp &= abs(float(rp.distance_to(qa, Ibuf, inv=True)) - d) <= tol
                     okp &= abs(float(rp.distance_to(qa)) - float(rp.distance_to(rq))) <= tol
                     okp &= bool((qa == np.array(q, dtype=float)).all())
+                    if ortho and (edges == np.round(edges)).all():
+                        # the same box as an integer array and as nested lists of Python ints
+                        Bi = np.diag(edges.astype(np.int64 if rng.random() < 0.5 else np.int32))
+                        okp &= abs(float(rp.distance_to(rq, Bi)) - d) <= tol
+                        okp &= abs(float(rp.distance_to(rq, np.array(Bi.tolist()))) - d) <= tol
                     last_kind = 'B' if rng.random() < 0.5 else 'I'
                     d_last = float(rp.distance_to(rq, B)) if last_kind == 'B' else float(rp.distance_to(rq, Ibuf, inv=True))
                     okp &= abs(d_first - d) <= tol and abs(d_last - d) <= tol
